@@ -165,7 +165,7 @@ class Emitter:
 def build_script(registry, assertions, logic=None, want_model=True, timeout_ms=None, extra_values=()):
     """assertions: Bool terms.  Axioms of every variable / atom that occurs are added (closure)."""
     assertions = [a for a in assertions if a is not tm.TRUE]
-    closure = registry.axiom_closure(assertions)
+    closure = registry.axiom_closure(list(assertions) + list(extra_values))
     em = Emitter(registry)
     lines = []
     for a in list(assertions) + closure:
